@@ -107,7 +107,8 @@ fn family(thorough: bool) -> Vec<(String, GraphSpec)> {
                     Op::RemoveEdge(j) => {
                         created.remove(j as usize);
                     }
-                    Op::RenewNode(s) => created.retain(|(_, a, b)| *a != s && *b != s),
+                    Op::RenewNode(s) | Op::DropNode(s) => created.retain(|(_, a, b)| *a != s && *b != s),
+                    Op::AddNode => {}
                 }
             }
             live.extend(created.iter().map(|c| c.0));
